@@ -167,47 +167,45 @@ class Scenario:
                               if end == 's' else ss.CMD_UDP_CLOSE])
             self.do(('foreign', end, 40000 + rng.randrange(100), cmd, payload(rng, rng.choice([0, 10, 600, 4096]), 99)))
 
-    # ---- fair scheduler: everything that pre_select asks for and that is ready gets its callback
+    # ---- fair scheduler: the REAL loop.  Each pass runs one real ssnet.runonce per end in which the tunnel delivers
+    # everything queued by the peer, every endpoint socket is as ready as its environment makes it (readable iff
+    # something is pending or it closed, always writable) and the tunnel's write file is writable; select hands back
+    # only what pre_select asked for, so a wake-up the code forgets to ask for is simply not given.
     def drain(self, max_rounds=400, on_round=None):
+        import struct
         t, o = self.t, self.o
+        full = Io('ok', 'd65536', 's65536', False)
         last = None
         same = 0
-        # In the real runonce a frame delivery (Mux.callback -> handle) is always followed, in the same
-        # round, by one callback of every Proxy (the mux files are in every Proxy's socks).  The random
-        # phase may have delivered frames without that follow-up: catch up once before judging liveness.
+        # The scripted / random phase before a drain may have handled a frame with a bare `deliver` step.  In the real
+        # loop a frame is always handled inside a round in which every Proxy then gets a callback (the tunnel's read
+        # file is in every Proxy's socks); give that follow-up once, so that the drain starts from a state the real
+        # loop can be in.
         for end in ('c', 's'):
             for i, f in enumerate(t.flows):
                 p = f.sproxy if end == 's' else f.cproxy
                 hl = t.shandlers if end == 's' else t.chandlers
                 if p is not None and p in hl:
-                    self.do(('cb', end, i, Io('ok', 'd65536', 's65536', False)))
+                    self.do(('cb', end, i, full))
         for rnd in range(max_rounds):
             if self.stop:
                 return False
             for end in ('c', 's'):
-                self.do(('idle', end))
-                mux = t.cmux if end == 'c' else t.smux
-                for i, f in enumerate(t.flows):
-                    w = t.pre(end, i)
-                    if w == 'wants=none':
-                        continue
-                    sock_r, sock_w, mux_w = (c == '1' for c in w[6:9])
-                    env = f.app if end == 'c' else f.dst
-                    ready = (sock_r and (env.pending or env.eof_in)) or sock_w or mux_w
-                    if ready:
-                        self.do(('cb', end, i, Io('ok', 'd65536', 's65536', False)))
-                # the mux pipe: everything queued reaches the peer, whose proxies all get a callback
-                other = 's' if end == 'c' else 'c'
-                moved = False
-                while mux.outbuf and not self.stop:
-                    self.do(('deliver', other, 'ok'))
-                    moved = True
-                if moved:
-                    for i, f in enumerate(t.flows):
-                        p = f.sproxy if other == 's' else f.cproxy
-                        hl = t.shandlers if other == 's' else t.chandlers
-                        if p is not None and p in hl:
-                            self.do(('cb', other, i, Io('ok', 'd65536', 's65536', False)))
+                src = t.smux if end == 'c' else t.cmux
+                guard = 0
+                while True:
+                    guard += 1
+                    n = len(src.outbuf)
+                    self.do(('round', end, n, 'auto', full))
+                    if self.stop or guard > 50:
+                        break
+                    if src.outbuf:
+                        # the round stopped in front of a CONNECT (it needs a scripted connect result)
+                        (_a, _b, _chan, cmd, _n) = struct.unpack('!ccHHH', src.outbuf[0][:8])
+                        if cmd == t.ssnet.CMD_TCP_CONNECT:
+                            self.do(('deliver', end, 'ok'))
+                            continue
+                    break
                 if o.latency:
                     self.do(('full', end))
             if on_round:
